@@ -436,7 +436,7 @@ def _renorm_tpl(t):
     return ("tpl", t[1], text, slots)
 
 
-def _tpl_over_match(t):
+def _tpl_over_match(t, min_slots=2):
     """quote!( a #x b ) with x = match s { P => quote!(p), Q => quote!(q) } (as a whole value, not in a repetition) is
     match s { P => quote!(a p b), Q => quote!(a q b) }: the pieces chosen by one scrutinee are chosen once, around the template"""
     text, slots = t[2], t[3]
@@ -458,7 +458,7 @@ def _tpl_over_match(t):
     scr = slots[cands[0]][1]
     pats = [p for p, _g, _b in slots[cands[0]][2]]
     ks = [k for k in cands if slots[k][1] == scr and [p for p, _g, _b in slots[k][2]] == pats]
-    if len(ks) < 2:
+    if len(ks) < min_slots:
         return t              # one piece chosen by a match stays a slot (the field list of a struct); several pieces chosen together are one choice
     arms = []
     for ai, pat in enumerate(pats):
@@ -466,7 +466,7 @@ def _tpl_over_match(t):
         # splice from the highest index down so that the remaining indices stay valid
         for k in sorted(ks, reverse=True):
             tx, sl = _tpl_splice(tx, sl, k, sl[k][2][ai][2])
-        arms.append((pat, None, ("tpl", t[1], tx, sl)))
+        arms.append((pat, None, _renorm_tpl(("tpl", t[1], tx, sl)) if min_slots < 2 else ("tpl", t[1], tx, sl)))
     return ("match", scr, arms)
 
 
@@ -2166,7 +2166,10 @@ class Norm:
         if init != ("tpl", "quote", "", []) or origin[0] != "let" or not effs:
             return None
         text, slots = [], []
+        last_loop = None
         for (node, kind, _g), r in zip(effs, rel):
+            if not r or r[0][0] != "for":
+                last_loop = None
             cond_guard = None
             if len(r) == 1 and (r[0][0] == "if" or (r[0][0] == "arm" and r[0][2] in ("v1::Some($)", "Option::Some($)"))):
                 cond_guard, r = r[0], ()         # an append made only under a condition: an optional piece
@@ -2209,8 +2212,23 @@ class Norm:
             elif r:
                 it = self._t(r[0][1])
                 d = depth + 1
+                if last_loop is not None and last_loop[0] is r[0][1]:
+                    # a second append in the same pass of the same loop: the pieces of one pass stay together (a1 b1 a2 b2, not a1 a2 b1 b2)
+                    k = last_loop[1]
+                    prev = last_loop[2]
+                    both = []
+                    for pc in (prev, piece):
+                        both.append(pc if pc[0] == "tpl" and pc[1] == "quote" else ("tpl", "quote", "#0", [pc]))
+                    base = len(both[0][3])
+                    toks = [("#%d" % (base + int(tok[1:]))) if re.fullmatch(r"#\d+", tok) else tok for tok in both[1][2].split(" ")]
+                    piece = ("tpl", "quote", " ".join((both[0][2] + " " + " ".join(toks)).split()), list(both[0][3]) + list(both[1][3]))
+                    slots[k] = ("call", "Iterator::map", [it, ("closure", d, 1, rewrite(piece, _elem_to_param(it, d)))])
+                    last_loop = (r[0][1], k, piece)
+                    continue
                 slots.append(("call", "Iterator::map", [it, ("closure", d, 1, rewrite(piece, _elem_to_param(it, d)))]))
                 text.append("#( #%d )*" % (len(slots) - 1))
+                last_loop = (r[0][1], len(slots) - 1, piece)
+                continue
             elif piece[0] == "tpl" and piece[1] == "quote":
                 base = len(slots)
                 for tok in piece[2].split(" "):
